@@ -241,7 +241,7 @@ func (e *Engine) solveOne(o *Oblig, dir, base string, timeoutS int) {
 		cases = append(cases, tAnd(none...)) // exhaustiveness: the remaining case
 	}
 	var total int64
-	if o.Expect == "sat" && timeoutS > 3 {
+	if o.Expect != "unsat" && timeoutS > 3 {
 		timeoutS = 3 // vacuity canaries only need "not unsat"
 	}
 	for ci, cs := range cases {
@@ -255,6 +255,13 @@ func (e *Engine) solveOne(o *Oblig, dir, base string, timeoutS int) {
 			// canary / cover: must NOT be unsat
 			if ans == "unsat" {
 				res.Status = "vacuous"
+			} else {
+				res.Status = "ok"
+			}
+		case o.Expect == "sat-soft":
+			// reachability of an intermediate path: reported, not a failure (dead defensive code is legitimate)
+			if ans == "unsat" {
+				res.Status = "unreachable"
 			} else {
 				res.Status = "ok"
 			}
